@@ -100,13 +100,19 @@ def run_walk(rng, name, cfg, objs, focus, n_agents, n_steps, perturb, resets, se
                     ctrl.append("all_local")
             sp = {"nets": rng.sample(nets, min(len(nets), rng.randrange(0, 2))),
                   "hosts": rng.sample(all_ips, min(len(all_ips), rng.randrange(0, 3))), "ctrl": ctrl}
-            if rng.random() < 0.3 and all_ips:
-                h = rng.choice(all_ips)
-                pool = sorted(T0["services"].get(T0["ip2host"][h], set())) + [("extra", "passive", "1.0", False)]
-                sp["svcs"] = {h: set(rng.sample(pool, rng.randrange(1, len(pool) + 1)))}
-            if rng.random() < 0.3 and all_ips:
-                h = rng.choice(all_ips)
-                sp["data"] = {h: {("User1", "DataFromServer1", 0, ""), ("Start", "Data", 0, "")}}
+            anchored = focus in ("C11", "C12")     # C11's premise: the start position itself is well-formed and anchored
+            own = [c for c in ctrl if not isinstance(c, str)]
+            if rng.random() < 0.3 and all_ips and (own or not anchored):
+                h = rng.choice(own if anchored else all_ips)
+                pool = sorted(T0["services"].get(T0["ip2host"][h], set())) + ([] if anchored else [("extra", "passive", "1.0", False)])
+                if pool:
+                    sp["svcs"] = {h: set(rng.sample(pool, rng.randrange(1, len(pool) + 1)))}
+            if rng.random() < 0.3 and all_ips and (own or not anchored):
+                h = rng.choice(own if anchored else all_ips)
+                real = sorted(T0["data"].get(T0["ip2host"][h], set()))
+                dt = set(real[:2]) if anchored else {("User1", "DataFromServer1", 0, ""), ("Start", "Data", 0, "")}
+                if dt:
+                    sp["data"] = {h: dt}
             return sp
 
         starts = [gen_start() for _ in range(n_agents)]
